@@ -1,6 +1,8 @@
 package main
 
 import (
+	"strconv"
+	"go/types"
 	"fmt"
 	"sort"
 	"strings"
@@ -31,7 +33,8 @@ func runC17(c *Ctx) {
 			okRound := false
 			for _, b := range rm.Blocks {
 				for _, ins := range b.Instrs {
-					if p, ok := ins.(*ssa.Phi); ok && p.Comment == "rsize" && len(p.Edges) == 2 {
+					// the rounded frame size is the length of the frame buffer allocation (identified by that role)
+					if p, ok := ins.(*ssa.Phi); ok && len(p.Edges) == 2 && c17IsMakeLen(rm, p) {
 						a, bb := f.tr.term(nil, p.Edges[0], 0), f.tr.term(nil, p.Edges[1], 0)
 						fs := "p2p.readInt24(new([32]byte)[:32])"
 						okRound = (a == fs && bb == "("+fs+" + (16 - ("+fs+" % 16)))") || (bb == fs && a == "("+fs+" + (16 - ("+fs+" % 16)))")
@@ -58,6 +61,97 @@ func runC17(c *Ctx) {
 		c.Extra["bounds_obligations"] = n
 	})
 	c.Min("C17-R1", 10)
+
+	c.Rule("C17-R1b", "lookups in fixed-size tables of the message layer are in range for every index value a peer can cause", func() {
+		// reviewed indexes that are computed by the node itself (never decoded from the wire), one function each
+		internal := map[string]string{
+			"(*p2p/discover.Table).doRevalidate":     "bucket index produced by nodeToRevalidate (random, modulo the table size)",
+			"(*p2p/discover.Table).nodeToRevalidate": "bucket index taken from a random permutation of the bucket indexes",
+			"(*p2p/discover.Table).bucket":           "log-distance of two hashes, clamped to the bucket range by the preceding comparison",
+		}
+		pk := map[string]bool{"p2p": true, "p2p/discover": true, "aqua": true, "rlp": true, "p2p/netutil": true, "p2p/enr": true}
+		n := 0
+		for _, fn := range c.SrcFns {
+			if fn.Pkg == nil || !pk[relPkg(fn.Pkg.Pkg.Path())] {
+				continue
+			}
+			var f *Facts
+			for _, b := range fn.Blocks {
+				for _, ins := range b.Instrs {
+					var x, idx ssa.Value
+					switch i := ins.(type) {
+					case *ssa.IndexAddr:
+						x, idx = i.X, i.Index
+					case *ssa.Index:
+						x, idx = i.X, i.Index
+					default:
+						continue
+					}
+					t := x.Type().Underlying()
+					if p, ok := t.(*types.Pointer); ok {
+						t = p.Elem().Underlying()
+					}
+					arr, ok := t.(*types.Array)
+					if !ok {
+						continue
+					}
+					if _, isC := constInt(idx); isC {
+						continue
+					}
+					n++
+					if f == nil {
+						f = c.Facts(fn)
+					}
+					it := f.tr.term(nil, idx, 0)
+					cons := fmt.Sprintf("%s: %s[%s] (table of %d)", shortFn(fn), f.tr.term(nil, x, 0), it, arr.Len())
+					if why, frozen := internal[shortFn(fn)]; frozen {
+						c.Info("C17-R1b", cons+" (reviewed: index computed locally)", c.Position(ins.Pos()), why)
+						continue
+					}
+					// (a) the index of a range loop over an array of the same length; (b) an index type that cannot exceed the table
+					if strings.HasPrefix(it, "(phi:rangeindex") {
+						c.Ob("C17-R1b", cons, c.Position(ins.Pos()), true, "range index")
+						continue
+					}
+					if bt, isB := idx.Type().Underlying().(*types.Basic); isB && (bt.Kind() == types.Uint8 && arr.Len() >= 256) {
+						c.Ob("C17-R1b", cons, c.Position(ins.Pos()), true, "index type cannot exceed the table")
+						continue
+					}
+					// (c) a dominating guard idx < K with K <= table length on every path
+					ok2, detail := true, ""
+					states := f.At(ins)
+					if len(states) == 0 {
+						ok2, detail = false, "unreachable?"
+					}
+					for _, st := range states {
+						st := st
+						found := false
+						sit := f.tr.term(st, idx, 0)
+						for l := range st.lits {
+							for _, pre := range []string{sit + " < ", sit + " <= "} {
+								if strings.HasPrefix(l, pre) {
+									if k, err := strconv.ParseInt(l[len(pre):], 10, 64); err == nil {
+										if strings.HasSuffix(pre, "<= ") {
+											k++
+										}
+										if k <= arr.Len() {
+											found = true
+										}
+									}
+								}
+							}
+						}
+						if !found {
+							ok2, detail = false, "no dominating guard index < "+fmt.Sprint(arr.Len())+"; literals: "+strings.Join(guardLits(st), "; ")
+						}
+					}
+					c.Ob("C17-R1b", cons, c.Position(ins.Pos()), ok2, detail)
+				}
+			}
+		}
+		c.Extra["table_lookups"] = n
+	})
+	c.Min("C17-R1b", 10)
 
 	c.Rule("C17-R2", "authenticate before use", func() {
 		c.MustOnAccept("C17-R2", dp, 3, false, []LitReq{
@@ -105,7 +199,15 @@ func runC17(c *Ctx) {
 			for _, ins := range b.Instrs {
 				if ms, ok := ins.(*ssa.MakeSlice); ok {
 					t := f.tr.term(nil, ms.Len, 0)
-					okk := t == "32" || strings.HasPrefix(t, "phi:rsize") || strings.Contains(t, "p2p.readInt24(")
+					okk := t == "32" || strings.Contains(t, "p2p.readInt24(")
+					if p, isPhi := ms.Len.(*ssa.Phi); isPhi && !okk {
+						okk = true
+						for _, l := range phiLeaves(p) {
+							if !strings.Contains(f.tr.term(nil, l, 0), "p2p.readInt24(") {
+								okk = false
+							}
+						}
+					}
 					c.Ob("C17-R3", "ReadMsg allocates only the fixed header and the 24-bit sized frame", c.Position(ms.Pos()), okk, "make([]byte, "+t+")")
 				}
 			}
@@ -123,14 +225,14 @@ func runC17(c *Ctx) {
 		c.ConstIs("C17-R3", "p2p:maxUint24", "16777215")
 		hm := c.Fn("aqua:(*ProtocolManager).handleMsg")
 		c.MustBefore("C17-R3", hm, `^(Msg\.Decode|rlp\.NewStream)$`, 10, []LitReq{
-			{Name: "sub-protocol payloads are decoded only if msg.Size <= ProtocolMaxMsgSize", Re: `^(peer#0\.rw\.ReadMsg\(\)#0|var:msg)\.Size <= 10485760$`},
+			{Name: "sub-protocol payloads are decoded only if msg.Size <= ProtocolMaxMsgSize", Re: `^(peer#0\.rw\.ReadMsg\(\)#0|var:\w+)\.Size <= 10485760$`},
 			{Name: "and the message was read successfully", Re: `^peer#0\.rw\.ReadMsg\(\)#1 == nil$`},
 		})
 		c.ConstIs("C17-R3", "aqua:ProtocolMaxMsgSize", "10485760")
 		fh := c.Facts(hm)
 		for _, cs := range callSites(hm, `^rlp\.NewStream$`) {
 			a := cs.Common().Args
-			c.Ob("C17-R3", "handleMsg limits every stream to the message size", c.Position(cs.Pos()), (strings.HasSuffix(fh.tr.term(nil, a[1], 0), "#0.Size") || fh.tr.term(nil, a[1], 0) == "var:msg.Size"), "limit "+fh.tr.term(nil, a[1], 0))
+			c.Ob("C17-R3", "handleMsg limits every stream to the message size", c.Position(cs.Pos()), (strings.HasSuffix(fh.tr.term(nil, a[1], 0), "#0.Size") || mustRe(`^var:\w+\.Size$`).MatchString(fh.tr.term(nil, a[1], 0))), "limit "+fh.tr.term(nil, a[1], 0))
 		}
 		// base protocol
 		ph := c.Fn("p2p:(*Peer).readLoop")
@@ -142,6 +244,13 @@ func runC17(c *Ctx) {
 			}
 			c.MustBefore("C17-R3", fn, `^Msg\.Decode$`, 1, []LitReq{{Name: name + ": handshake size limited before decoding", Re: `\.Size <= 2048$`}})
 		}
+		// GetBlockHeaders with a peer-chosen skip: the ancestor list of skip+1 hashes is built (and indexed at [skip])
+		// only if origin+skip+1 did not wrap around, i.e. the wrapped sum itself is compared with the origin
+		hmSkip := c.Fn("aqua:(*ProtocolManager).handleMsg")
+		c.MustBefore("C17-R3", hmSkip, `^BlockChain\.GetBlockHashesFromHash$`, 1, []LitReq{
+			{Name: "GetBlockHeaders: skip+1 ancestors are materialised only if origin+skip+1 > origin (no uint64 wrap-around)",
+				Re: `^(\(\((.*\.Number\.Uint64\(\)) \+ new\(getBlockHeadersData\)\.Skip\) \+ 1\) > .*\.Number\.Uint64\(\)|new\(getBlockHeadersData\)\.Skip < \(18446744073709551615 - .*\.Number\.Uint64\(\)\))$`},
+		})
 	})
 	c.Min("C17-R3", 12)
 
@@ -248,4 +357,16 @@ func reachablePanicsOpt(c *Ctx, roots []*ssa.Function, stop func(*ssa.Function) 
 		}
 	}
 	return out
+}
+
+// c17IsMakeLen: p is used as the length of a make([]byte, p) in fn.
+func c17IsMakeLen(fn *ssa.Function, p *ssa.Phi) bool {
+	for _, b := range fn.Blocks {
+		for _, ins := range b.Instrs {
+			if ms, ok := ins.(*ssa.MakeSlice); ok && ms.Len == p {
+				return true
+			}
+		}
+	}
+	return false
 }
